@@ -6,6 +6,7 @@ import (
 
 	"github.com/WuKongIM/WuKongIM/internal/verifh/vh"
 	metadb "github.com/WuKongIM/WuKongIM/pkg/db/meta"
+	"github.com/WuKongIM/WuKongIM/pkg/slot/multiraft"
 )
 
 // input of one C13 case: a committed command log, the runtime configuration of
@@ -404,6 +405,7 @@ func genC13(r *rand.Rand, tier string, i int) input {
 		in.Parts = g.parts(2)
 	}
 	in.Ops = keepEncodable(in.Ops)
+	in.Ops = thinFatal(r, in.Cfg, in.Ops, in.Prof == "garbage")
 	if len(in.Ops) > 0 {
 		if tier == "thorough" {
 			for k := 0; k <= len(in.Ops); k++ {
@@ -414,4 +416,47 @@ func genC13(r *rand.Rand, tier string, i int) input {
 		}
 	}
 	return in
+}
+
+// thinFatal applies the log one command per batch on a scratch world and
+// removes the commands ApplyBatch answers with an error (they have no effect,
+// so the rest of the log keeps its meaning), except one which is kept with
+// probability 0.3 (always in the garbage profile): a fatal command ends every
+// run, so a log should not contain one early and seldom more than one.
+func thinFatal(r *rand.Rand, cfg cfgJ, ops []cmdJ, keepOne bool) []cmdJ {
+	w := newSrcWorld(0, cfg, true)
+	var fatal []int
+	idx := uint64(0)
+	for i, c := range ops {
+		data, _ := c.encode()
+		sid := multiraft.SlotID(srcSlot)
+		if c.BadSlot {
+			sid++
+		}
+		idx++
+		if _, err := w.applyRaw([]multiraft.Command{{SlotID: sid, HashSlot: c.hs(), Index: idx, Term: 1, Data: data}}); err != nil {
+			fatal = append(fatal, i)
+			idx--
+		}
+	}
+	if len(fatal) == 0 {
+		return ops
+	}
+	keep := -1
+	if keepOne || vh.Chance(r, 0.3) {
+		keep = fatal[r.IntN(len(fatal))]
+	}
+	drop := map[int]bool{}
+	for _, i := range fatal {
+		if i != keep {
+			drop[i] = true
+		}
+	}
+	var out []cmdJ
+	for i, c := range ops {
+		if !drop[i] {
+			out = append(out, c)
+		}
+	}
+	return out
 }
